@@ -68,6 +68,20 @@ def gen_leaf(rng):
             hi = hi_full.astype(dt)
         else:
             hi = np.asarray(hi_full.max()).astype(dt)
+        if dt.startswith("float") and rng.random() < 0.3:
+            # half-lines and the whole line: -inf below a finite (possibly NEGATIVE) maximum, a finite minimum below +inf, or both infinite;
+            # scalar or per-element (only some elements unbounded)
+            r = rng.random()
+            if r < 0.45:
+                fin = rvals(rng, bshape(rng, shape), dt)          # finite maximum, any sign
+                lo = np.where(rng.random(size=np.shape(lo)) < 0.7, -np.inf, np.minimum(lo, np.min(fin, initial=0) - 1)).astype(dt)
+                hi = fin
+                if not (np.broadcast_to(lo, shape) <= np.broadcast_to(hi, shape)).all():
+                    lo = np.asarray(-np.inf, dt)
+            elif r < 0.8:
+                hi = np.where(rng.random(size=np.shape(hi)) < 0.7, np.inf, hi).astype(dt)
+            else:
+                lo, hi = np.asarray(-np.inf, dt), np.asarray(np.inf, dt)
         return specs.BoundedArray(shape, dt, lo, hi, name)
     # one time in four the number of values reaches the top of the dtype (the largest valid value is the dtype's maximum)
     top = {"int8": 128, "int16": 32768, "uint8": 256}
@@ -97,7 +111,15 @@ def step_out(x: np.ndarray, up: bool):
     if dt == bool:
         return None
     if dt.kind == "f":
-        return np.nextafter(x, np.array(np.inf if up else -np.inf, dt)).astype(dt)
+        if not np.isfinite(x):
+            return None  # nothing lies beyond an infinite bound
+        y = np.nextafter(x, np.array(np.inf if up else -np.inf, dt)).astype(dt)
+        tiny = np.finfo(dt).tiny
+        if y != 0 and abs(float(y)) < float(tiny):
+            # XLA on CPU flushes subnormals to zero, so a subnormal neighbour of 0 compares equal to 0 inside validate: that is the
+            # platform's arithmetic, not a slip of the spec — step to the smallest NORMAL number instead
+            y = np.array(tiny if up else -tiny, dt)
+        return y
     info = np.iinfo(dt)
     y = int(x) + (1 if up else -1)
     if y < info.min or y > info.max:
@@ -117,7 +139,9 @@ def candidate_values(rng, spec) -> List[Any]:
         lo, hi = b
         out.append(("at_min", lo.astype(dt)))
         out.append(("at_max", hi.astype(dt)))
-        mid = lo.astype(np.float64) + (hi.astype(np.float64) - lo.astype(np.float64)) * rng.random(size=shape)
+        flo = np.where(np.isfinite(lo), lo, np.where(np.isfinite(hi), hi.astype(np.float64) - 50, -50)).astype(np.float64)   # finite stand-ins for the
+        fhi = np.where(np.isfinite(hi), hi, np.where(np.isfinite(lo), lo.astype(np.float64) + 50, 50)).astype(np.float64)    # interior point
+        mid = flo + (fhi - flo) * rng.random(size=shape)
         if dt.startswith("float"):
             midv = np.clip(mid.astype(dt), lo, hi).astype(dt)
         else:
@@ -126,7 +150,10 @@ def candidate_values(rng, spec) -> List[Any]:
         if lo.size:
             for up in (False, True):
                 base = (hi if up else lo).astype(dt).copy()
-                k = int(rng.integers(base.size))
+                finite = np.flatnonzero(np.isfinite(base.astype(np.float64)).reshape(-1))
+                if finite.size == 0:
+                    continue
+                k = int(finite[int(rng.integers(finite.size))])
                 idx = np.unravel_index(k, base.shape) if base.shape else ()
                 nb = step_out(np.asarray(base[idx]), up)
                 if nb is not None:
